@@ -133,15 +133,15 @@ impl CredentialStore for Option<Passkey> {
     async fn find_credentials(
         &self,
         id: Option<&[PublicKeyCredentialDescriptor]>,
-        _rp_id: &str,
+        rp_id: &str,
     ) -> Result<Vec<Self::PasskeyItem>, StatusCode> {
         if let Some(id) = id {
             id.iter().find_map(|id| {
-                // TODO: && pk.rp_id == rp_id) need rp_id on typeshared passkey
-                self.clone().filter(|pk| pk.credential_id == id.id)
+                self.clone()
+                    .filter(|pk| pk.credential_id == id.id && pk.rp_id == rp_id)
             })
         } else {
-            self.clone() // TODO: .filter(|pk| pk.rp_id == rp_id) need rp_id on typeshared passkey
+            self.clone().filter(|pk| pk.rp_id == rp_id)
         }
         .map(|pk| vec![pk])
         .ok_or(Ctap2Error::NoCredentials.into())
